@@ -207,6 +207,8 @@ def check_meta(ctx):
         ctx.check(R, at, "a table passed without explicit %s supplies it from its metadata" % key, ok and table_leaves > 0,
                   "with %s left at None and a table as input the constructor uses `%s`, not the table's own %s: indexing, copy() and median_period() reset it" % (key, "; ".join(seen) or "?", key),
                   key="init:" + key)
+    check_ingest(ctx, R)
+    check_setitem(ctx, R)
     gi = ctx.prog.func(SM, "JokerSamples.__getitem__", R)
     rets = [s for s in A.walk_local(gi) if isinstance(s, ast.Return)]
     colret = [s for s in rets if canon(s.value) == canon(parse("self.tbl[key]"))]
@@ -236,6 +238,34 @@ def check_meta(ctx):
         f = ctx.prog.func(SM, q, R)
         rr = [s for s in A.walk_local(f) if isinstance(s, ast.Return)]
         ctx.check(R, f, "%s = _apply(%s)" % (q, fnm), len(rr) == 1 and canon(rr[0].value) == canon(parse("self._apply(%s)" % fnm)), "returns `%s`" % (A.unparse(rr[0].value) if rr else None), key=q, nontrivial=False)
+
+
+def check_setitem(ctx, R="C17-META"):
+    """JokerSamples.__setitem__ stores through Table.__setitem__ (which copies): a column must never share memory with the array the caller passed - wrap_K and
+    friends update columns in place"""
+    fn = ctx.prog.func(SM, "JokerSamples.__setitem__", R)
+    stores = [s_ for s_ in A.walk_local(fn) if isinstance(s_, ast.Assign) and isinstance(s_.targets[0], ast.Subscript) and canon(s_.targets[0].value) == "self.tbl"]
+    alias = [c for c in A.calls_in(fn) if isinstance(c.func, ast.Attribute) and "self.tbl" in canon(c.func.value) and
+             (c.func.attr in ("add_column", "add_columns", "replace_column", "__setitem__") or any(k.arg == "copy" and A.const_value(k.value) is False for k in c.keywords))]
+    ctx.check(R, alias[0] if alias else fn, "__setitem__ stores a copy of the value (tbl[key] = val)", bool(stores) and not alias,
+              "`%s` can keep the caller's array as the column itself: two columns assigned from one array then change together" % (A.unparse(alias[0])[:60] if alias else "no tbl[key] = val store"), key="setitem:copy")
+
+
+def check_ingest(ctx, R):
+    """JokerSamples.__init__ takes the columns of whatever it is given: the ingestion runs whenever `samples is not None` (an empty table is falsy: a truthiness
+    test drops the columns and units of a 0-row table on read(), copy() and slicing)"""
+    init = ctx.prog.func(SM, "JokerSamples.__init__", R)
+    loops = [lp for lp in A.walk_local(init) if isinstance(lp, ast.For) and any(isinstance(s_, ast.Assign) and isinstance(s_.targets[0], ast.Subscript) and canon(s_.targets[0].value) == "self"
+                                                                                  for s_ in lp.body)]
+    ok = False
+    why = "no loop that stores the input columns"
+    for lp in loops:
+        pc = A.conj(A.path_condition(lp, init))
+        ok = A.nnf_implies(A.nnf_of_src("samples is not None"), pc)
+        why = "columns are ingested only under %s: an input that is not None but falsy (a table without rows) loses its columns and units" % sorted(A.term_strings([pc]))
+        if ok:
+            break
+    ctx.check(R, loops[0] if loops else init, "the constructor ingests the columns of every input that is not None", ok, why, key="init:ingest")
 
 
 def check_median(ctx):
